@@ -17,7 +17,7 @@ echo "passing tests lost: $lost (of $(wc -l < /tmp/seedwork/baseline_passed.txt)
 # now the check against the patched tree: by default /repo itself (patch applied, check, reverted); with SEED_SCRATCH=1 the
 # worktree of the seed is used through VERIF_REPO so that /repo stays untouched (needed while other checks are running)
 if [ -n "${SEED_SCRATCH:-}" ]; then
-  cd /verif && VERIF_REPO=$W timeout 3000 bin/check $P ${3:-quick} > /tmp/seedwork/$P.check.log 2>&1; rc=$?
+  cd /verif && VERIF_REPO=$W VERIF_OUT=/tmp/seedwork/out timeout 3000 bin/check $P ${3:-quick} > /tmp/seedwork/$P.check.log 2>&1; rc=$?
   PYTHONPATH=$W:/verif /verif/.venv/bin/python -c "import dassh; print('checked package:', dassh.__file__)"
 else
 cd /repo && git apply "$W/patch.diff" || { echo "patch does not apply to /repo"; exit 3; }
